@@ -170,6 +170,13 @@ def gen_cases(ctx):
                   "cfg": {"tasks": ["t0"], "pipelines": {"p0": [{"task": "t0"}, {"task": "t0", "name": "again", "depends_on": ["t0"]}], "p1": [{"pipeline": "p0"}, {"pipeline": "p0", "name": "twice"}]}, "watchers": {}}})
     cases.append({"id": len(cases), "kind": "depends_on->stage", "expect": False,
                   "cfg": {"tasks": ["t0", "t1"], "pipelines": {"p0": [{"task": "t0", "depends_on": ["t1"]}], "p1": [{"task": "t1"}]}, "watchers": {}}})   # a stage of ANOTHER pipeline
+    # a pipeline whose name is the empty string is a pipeline like any other: a stage naming neither a task nor a pipeline refers to it
+    cases.append({"id": len(cases), "kind": "inclusion-cycle-1", "expect": False,
+                  "cfg": {"tasks": ["t0"], "pipelines": {"": [{"name": "x"}]}, "watchers": {}}})
+    cases.append({"id": len(cases), "kind": "inclusion-cycle-2", "expect": False,
+                  "cfg": {"tasks": ["t0"], "pipelines": {"": [{"name": "x", "pipeline": "p1"}], "p1": [{"name": "y"}]}, "watchers": {}}})
+    cases.append({"id": len(cases), "kind": "valid", "expect": True,
+                  "cfg": {"tasks": ["t0"], "pipelines": {"": [{"task": "t0"}], "p1": [{"name": "y"}, {"task": "t0", "depends_on": ["y"]}]}, "watchers": {}}})
     return cases
 
 
